@@ -107,6 +107,12 @@ class Conduct(core.Scenario):
             def fire(s, i=i):
                 s.send_calls[i] = (s.world.nstep, s.world.call('send', SENDS[i]))
             app.append(core.Action('send#%d' % i, fire, lambda s: s.conn.done and not s.conn.exc))
+            if p.get('connect_again') and i == 0:
+                # the application (a retry timer, another task) calls connect() on the client that is already connected: it is
+                # refused with ValueError and must leave the live connection alone
+                def again(s):
+                    s.again = s.world.call('connect', 'http://srv', transports=tr)
+                app.append(core.Action('connect-again', again, lambda s: s.conn.done and not s.conn.exc and s.world.client.state == 'connected'))
         self.scripts = [srv, app, [], rel]
 
     def step_check(self):
@@ -168,6 +174,9 @@ class Conduct(core.Scenario):
         junk = [(ch, d) for ch, t, d, k in out if k == 'garbage']
         if junk:
             self.flag('undecodable_output', 'the client put undecodable data on the wire: %r' % (junk[:2],), trigger=trig)
+        ag = getattr(self, 'again', None)
+        if ag is not None and (not ag.done or not ag.exc or ag.exc['type'] != 'ValueError'):
+            self.flag('second_connect_not_refused', 'connect() on a connected client: done=%s exc=%r (want ValueError)' % (ag.done, ag.exc), trigger=trig)
         # ---- PONG echo: one PONG with identical data per PING
         pings = [x[1:] for x in p.get('piggy', []) if x.startswith('2')]
         for name in p['pushes']:
@@ -450,6 +459,9 @@ def param_list(ctx):
             for sq in ([], ['msg']):
                 ps.append({'impl': impl, 'mode': mode, 'pushes': sq, 'nsend': 1, 'piggy': ['4welcome', '2hs']})
                 ps.append({'impl': impl, 'mode': mode, 'pushes': sq, 'nsend': 0, 'piggy': ['4w1', '4w2']})
+        # connect() is called again while connected, between two sends and two PINGs
+        for mode in ('polling', 'websocket', 'upgrade_ok'):
+            ps.append({'impl': impl, 'mode': mode, 'pushes': ['pingx', 'ping_msg'], 'nsend': 3, 'connect_again': True})
         # the application sends from inside its connect handler (before connect() has returned)
         for mode in ('polling', 'websocket', 'upgrade_ok', 'upgrade_wrong'):
             for hk in (1, 3):
